@@ -255,7 +255,7 @@ func (s *session) wdOf(path string, noFollow bool) (uint32, bool) {
 
 // inject writes one datagram and then a barrier datagram; returns the events and errors the
 // watcher delivered for the datagram (everything that arrived before the barrier's own event).
-func (s *session) inject(buf []byte, timeout time.Duration) (evs []fsnotify.Event, errs []error, ok bool) {
+func (s *session) inject(buf []byte, timeout time.Duration, more ...[]byte) (evs []fsnotify.Event, errs []error, ok bool) {
 	if s.pace == 2 { // bursty consumer: let the reader run into a full buffer, then drain at full speed
 		atomic.StoreInt32(&s.paused, 1)
 		defer atomic.StoreInt32(&s.paused, 0)
@@ -267,6 +267,13 @@ func (s *session) inject(buf []byte, timeout time.Duration) (evs []fsnotify.Even
 	if len(buf) > 0 {
 		if _, err := unix.Write(s.injectFd, buf); err != nil {
 			check(fmt.Errorf("inject write: %w", err))
+		}
+	}
+	for _, b := range more { // further reads before the barrier: nothing resets the reader's state in between
+		if len(b) > 0 {
+			if _, err := unix.Write(s.injectFd, b); err != nil {
+				check(fmt.Errorf("inject write: %w", err))
+			}
 		}
 	}
 	s.barrierN++
@@ -513,6 +520,60 @@ func (s *session) opRaw(r *rec, buf []byte) bool {
 	return ok
 }
 
+// opRawMulti: several datagrams (= several reads of the reader) and only then the barrier. For the
+// model read boundaries do not exist (C01.batching_irrelevant): it gets the concatenation.
+func (s *session) opRawMulti(r *rec, bufs ...[]byte) bool {
+	marks := s.marks()
+	var all []byte
+	for _, b := range bufs {
+		all = append(all, b...)
+	}
+	evs, errs, ok := s.inject(bufs[0], 10*time.Second, bufs[1:]...)
+	ans := fmtOut("nil", evs, errs) + " | " + stateStr(s.w)
+	if !ok {
+		ans += " | BARRIER-TIMEOUT"
+	}
+	op := fmt.Sprintf("raw %s marks=%s", hex.EncodeToString(all), marks)
+	r.emit("raw", op, ans)
+	s.monitorRaw(all, evs, errs, op)
+	return ok
+}
+
+// relabel returns a copy of a well-formed datagram in which every non-NUL name byte is replaced by
+// another letter: same watches, masks, offsets and padded lengths, different names.
+func relabel(buf []byte, g *rng) []byte {
+	out := append([]byte(nil), buf...)
+	changed := false
+	for off := 0; off+16 <= len(out); {
+		n := int(binary.LittleEndian.Uint32(out[off+12:]))
+		if off+16+n > len(out) {
+			return nil
+		}
+		if binary.LittleEndian.Uint32(out[off+4:])&(inMovedFrom|inMovedTo) != 0 {
+			return nil // rename pairs carry meaning in their names: leave those datagrams alone
+		}
+		for i := off + 16; i < off+16+n; i++ {
+			if out[i] != 0 && out[i] != '/' {
+				out[i] = byte('a' + g.intn(26))
+				changed = true
+			}
+		}
+		off += 16 + n
+	}
+	if !changed {
+		return nil
+	}
+	return out
+}
+
+func recsBytes(recs ...rawRec) []byte {
+	var b []byte
+	for _, x := range recs {
+		b = append(b, x.bytes()...)
+	}
+	return b
+}
+
 // ---- universe ----------------------------------------------------------------
 
 type universe struct {
@@ -667,6 +728,17 @@ func (s *session) genRecord(g *rng, cookies *[]uint32) rawRec {
 			default:
 				rr.name = kernelPad(nm)
 			}
+		}
+	}
+	// now and then a plain, named record for the sentinel watch itself: it shares watch, offset and
+	// padded length with the barrier records of the neighbouring reads (stale-buffer bugs)
+	if g.chance(5) && s.sentWd != 0 {
+		rr.wd = s.sentWd
+		rr.mask = []uint32{inCreate, inModify, inDelete, inAttrib, inCloseWrite}[g.intn(5)]
+		rr.cookie = 0
+		rr.name = kernelPad("s" + genName(g))
+		if len(rr.name) > 240 {
+			rr.name = kernelPad("sname")
 		}
 	}
 	return rr
@@ -913,6 +985,15 @@ func runSession(r *rec, g *rng, s *session, u *universe, steps int, mon *os.File
 			if g.chance(4) && len(buf) > 0 { // trailing partial header (< 16 bytes): ignored by the loop
 				buf = append(buf, make([]byte, 1+g.intn(15))...)
 			}
+			if g.chance(12) && len(buf) >= 32 && len(buf)%16 == 0 {
+				// the same layout once more in a second read, other name bytes (stale-buffer bugs)
+				if b2 := relabel(buf, g); b2 != nil {
+					if !s.opRawMulti(r, buf, b2) {
+						return
+					}
+					continue
+				}
+			}
 			if !s.opRaw(r, buf) {
 				return
 			}
@@ -1042,5 +1123,22 @@ var scripts = []func(r *rec, s *session, u *universe){
 		os.Remove(filepath.Join(u.root, "f1"))
 		s.rawRecs(r, rawRec{wd: d, mask: inDelete, name: kernelPad("x")}, rawRec{wd: x, mask: inDeleteSelf}, rawRec{wd: x, mask: inIgnored},
 			rawRec{wd: f, mask: inDeleteSelf}, rawRec{wd: f, mask: inIgnored})
+	},
+	// stale read buffer: two or three reads with the same layout (same watches, same offsets, same padded
+	// name lengths) and different names, with no barrier read in between. Anything that remembers names
+	// by reference to the read buffer (a cache, a slice kept across reads) answers with an earlier name.
+	func(r *rec, s *session, u *universe) {
+		s.opAdd(r, "d1", 0x1f, false)
+		wd := s.wdFor("d1")
+		s.opRawMulti(r,
+			recsBytes(rawRec{wd: wd, mask: inAttrib}, rawRec{wd: wd, mask: inCreate, name: kernelPad("alpha")}),
+			recsBytes(rawRec{wd: wd, mask: inAttrib}, rawRec{wd: wd, mask: inCreate, name: kernelPad("bravo")}),
+			recsBytes(rawRec{wd: wd, mask: inAttrib}, rawRec{wd: wd, mask: inModify, name: kernelPad("charlie")}))
+		s.opRawMulti(r,
+			recsBytes(rawRec{wd: 999, mask: inModify, name: kernelPad("unknown-watch")}, rawRec{wd: wd, mask: inCreate, name: kernelPad("x1")}, rawRec{wd: wd, mask: inModify, name: kernelPad("y1")}),
+			recsBytes(rawRec{wd: 999, mask: inModify, name: kernelPad("unknown-watch")}, rawRec{wd: wd, mask: inCreate, name: kernelPad("x2")}, rawRec{wd: wd, mask: inModify, name: kernelPad("y2")}))
+		s.opRawMulti(r,
+			recsBytes(rawRec{wd: 0xffffffff, mask: inQOverflow}, rawRec{wd: wd, mask: inCreate, name: kernelPad(strings.Repeat("p", 40))}),
+			recsBytes(rawRec{wd: wd, mask: inIsdir | inAttrib}, rawRec{wd: wd, mask: inDelete, name: kernelPad(strings.Repeat("q", 40))}))
 	},
 }
